@@ -164,7 +164,7 @@ def run(ctx):
     quick = ctx.tier == "quick"
     arm_deadline(ctx, 330 if quick else 1750)
     ctx.rule = ("configurations: 2-4 threads over 1-3 endpoint pairs (families pair, paircb = callback endpoints, twosock, "
-                "threenode, reinc = a later endpoint re-using a key, switch = the receiver flips use_callbacks on its connected socket while the peer sends, storage = endpoints of every exported socket class (StorageThreadSocket as callback endpoint; the constructors are scheduling points), reconn = a (callback) receiver that stays connected while the sender disconnects, reconnects with the same socket id and sends again, lone = no peer, shared = two threads on one key), "
+                "threenode, reinc = a later endpoint re-using a key, switch = the receiver flips use_callbacks on its connected socket while the peer sends, structured = send_structured/recv_structured with one re-used message object changed in place between sends (compared with a deep copy taken at send time), storage = endpoints of every exported socket class (StorageThreadSocket as callback endpoint; the constructors are scheduling points), reconn = a (callback) receiver that stays connected while the sender disconnects, reconnects with the same socket id and sends again, lone = no peer, shared = two threads on one key), "
                 "<= 4 send/recv/recv-nonblocking ops between connect and optional disconnect; each is run on the real "
                 "hub under seeded random (pre-emption probability 0.03..0.7) and PCT-style (depth 2..5) line-level "
                 "schedules; message payloads include the empty string, \"0\" and whitespace. A second stream runs "
